@@ -346,6 +346,9 @@ type StructVal struct {
 type Ref struct {
 	Get func() Value
 	Set func(Value)
+	// Typ is the static type of the pointer expression that made the reference (when known): the dynamic type of an
+	// interface value that holds it, used to dispatch interface method calls (container/heap on a repository type)
+	Typ types.Type
 }
 
 // ErrVal is a non-nil error; Dyn optionally names its dynamic type (for type switches).
@@ -388,6 +391,9 @@ type ChanVal struct {
 	Queue  bool
 	Closed bool
 	Pos    token.Pos
+	// OnSend, when set, is called at each send on this channel (harnesses use it to order a completion signal against
+	// the writes made before and after it)
+	OnSend func(v Value)
 }
 
 // Pending reports how many values can still be received.
